@@ -3,7 +3,7 @@ import MosnVerif.Model.ResourceShare
 # Histories of requests, retries, stream-proxy connections and cluster updates (C10, builder c10p10)
 
 The operations the harness drives on the REAL cluster manager and proxy core (kind `rsh`), as programs over the primitive
-admit / release / update of `Model/ResourceShare.lean`:
+acquire / release / update of `Model/ResourceShare.lean`:
 
 * `start k`  — request `k` is routed (its retry state captures the CURRENT cluster info) and its first attempt goes through the pool of
   the host's address: `CanCreate / Increase` of `Requests` through the pool's host object; refused = overflow, the request ends;
@@ -90,13 +90,13 @@ def objMach (code : Code) : Mach Hist where
   route h k := { h with cap := upd h.cap k h.c.cur }
   admitReq h k :=
     let ph := poolHost h
-    let r := admit h.c (2 * k) .req (.host ph) (.host ph)
+    let r := acquire h.c (2 * k) .req (.host ph) (.host ph)
     ({ h with c := r.1, pool := some ph }, r.2)
   admitRetr h k :=
-    let r := admit h.c (2 * k + 1) .retr (.info (h.cap k)) (.info (h.cap k))
+    let r := acquire h.c (2 * k + 1) .retr (.info (h.cap k)) (.info (h.cap k))
     ({ h with c := r.1 }, r.2)
   admitConn h j :=
-    let r := admit h.t j .conn (.info h.t.cur) (.host (h.t.hosts.headD 0))
+    let r := acquire h.t j .conn (.info h.t.cur) (.host (h.t.hosts.headD 0))
     ({ h with t := r.1 }, r.2)
   rel h id := { h with c := release h.c id }
   relT h id := { h with t := release h.t id }
